@@ -1,3 +1,160 @@
+/-
+C15 — Bounding box contains the whole trajectory and is tight.
+
+Theorems:
+  * merging the per-segment intervals (`CHECK_DIM`) yields an interval that contains every segment's interval and
+    whose two ends are ends of some segment's interval (`mergeAll_contains`, `mergeAll_attained`) — so containment
+    and tightness of the box reduce to containment and tightness per segment and axis;
+  * per segment, constant and linear encodings: the interval of `sb_poly_get_extrema` bounds the polynomial on [0,1]
+    and both ends are attained (`extremaLinear_bounds`, `extremaLinear_attained`), in exact arithmetic;
+  * per segment, curved encodings, over the reals: the values at 0, at 1 and at the zeros of the derivative inside
+    (0,1) bound the polynomial on [0,1] (`bounded_by_candidates`, both directions) — this is the candidate set that
+    `sb_poly_get_extrema` evaluates for cubic encodings, whose derivative's zeros come from the quadratic formula
+    (`Sb.C18.idealSolve3_correct`).
+Not proven: float rounding of the candidates (correspondence run, exact Sturm containment/tightness test).
+Degree-7 encodings: recorded finding (known_findings.json, DESIGN.md).
+-/
+import Mathlib.Tactic.Ring
+import Mathlib.Tactic.Linarith
+import Mathlib.Algebra.Order.Field.Rat
+import Mathlib.Analysis.Calculus.LocalExtr.Basic
+import Mathlib.Analysis.Calculus.Deriv.Polynomial
+import Mathlib.Topology.Order.Compact
+import Mathlib.Topology.Algebra.Polynomial
 import Sb.Model.Stats
+
 namespace Sb.C15
+open Sb Sb.Poly Sb.Stats
+
+/-! ### merging -/
+
+theorem foldl_mergeIv_some (ivs : List (Rat × Rat)) (lo hi : Rat) :
+    ∃ lo' hi', ivs.foldl mergeIv (some (lo, hi)) = some (lo', hi') ∧ lo' ≤ lo ∧ hi ≤ hi' ∧
+      (∀ iv ∈ ivs, lo' ≤ iv.1 ∧ iv.2 ≤ hi') ∧
+      (lo' = lo ∨ ∃ iv ∈ ivs, iv.1 = lo') ∧ (hi' = hi ∨ ∃ iv ∈ ivs, iv.2 = hi') := by
+  induction ivs generalizing lo hi with
+  | nil => exact ⟨lo, hi, rfl, le_refl _, le_refl _, by simp, Or.inl rfl, Or.inl rfl⟩
+  | cons iv rest ih =>
+    simp only [List.foldl_cons, mergeIv]
+    obtain ⟨lo', hi', h, h1, h2, h3, h4, h5⟩ := ih (min lo iv.1) (max hi iv.2)
+    refine ⟨lo', hi', h, le_trans h1 (min_le_left _ _), le_trans (le_max_left _ _) h2, ?_, ?_, ?_⟩
+    · intro x hx
+      rcases List.mem_cons.mp hx with rfl | hm
+      · exact ⟨le_trans h1 (min_le_right _ _), le_trans (le_max_right _ _) h2⟩
+      · exact h3 x hm
+    · rcases h4 with h4 | ⟨x, hx, hx'⟩
+      · rcases min_choice lo iv.1 with hm | hm
+        · left; rw [h4, hm]
+        · right; exact ⟨iv, by simp, by rw [h4, hm]⟩
+      · right; exact ⟨x, by simp [hx], hx'⟩
+    · rcases h5 with h5 | ⟨x, hx, hx'⟩
+      · rcases max_choice hi iv.2 with hm | hm
+        · left; rw [h5, hm]
+        · right; exact ⟨iv, by simp, by rw [h5, hm]⟩
+      · right; exact ⟨x, by simp [hx], hx'⟩
+
+/-- the merged interval contains every segment's interval -/
+theorem mergeAll_contains (ivs : List (Rat × Rat)) (lo hi : Rat) (h : mergeAll ivs = some (lo, hi)) :
+    ∀ iv ∈ ivs, lo ≤ iv.1 ∧ iv.2 ≤ hi := by
+  cases ivs with
+  | nil => simp [mergeAll] at h
+  | cons a rest =>
+    simp only [mergeAll, List.foldl_cons, mergeIv] at h
+    obtain ⟨lo', hi', h', h1, h2, h3, _, _⟩ := foldl_mergeIv_some rest a.1 a.2
+    rw [h'] at h
+    simp only [Option.some.injEq, Prod.mk.injEq] at h
+    obtain ⟨rfl, rfl⟩ := h
+    intro iv hiv
+    rcases List.mem_cons.mp hiv with rfl | hm
+    · exact ⟨h1, h2⟩
+    · exact h3 iv hm
+
+/-- both ends of the merged interval are ends of some segment's interval (nothing is added) -/
+theorem mergeAll_attained (ivs : List (Rat × Rat)) (lo hi : Rat) (h : mergeAll ivs = some (lo, hi)) :
+    (∃ iv ∈ ivs, iv.1 = lo) ∧ (∃ iv ∈ ivs, iv.2 = hi) := by
+  cases ivs with
+  | nil => simp [mergeAll] at h
+  | cons a rest =>
+    simp only [mergeAll, List.foldl_cons, mergeIv] at h
+    obtain ⟨lo', hi', h', _, _, _, h4, h5⟩ := foldl_mergeIv_some rest a.1 a.2
+    rw [h'] at h
+    simp only [Option.some.injEq, Prod.mk.injEq] at h
+    obtain ⟨rfl, rfl⟩ := h
+    constructor
+    · rcases h4 with h4 | ⟨x, hx, hx'⟩
+      · exact ⟨a, by simp, h4.symm⟩
+      · exact ⟨x, by simp [hx], hx'⟩
+    · rcases h5 with h5 | ⟨x, hx, hx'⟩
+      · exact ⟨a, by simp, h5.symm⟩
+      · exact ⟨x, by simp [hx], hx'⟩
+
+/-- a trajectory with at least one segment has a box -/
+theorem mergeAll_some (a : Rat × Rat) (rest : List (Rat × Rat)) : ∃ lo hi, mergeAll (a :: rest) = some (lo, hi) := by
+  simp only [mergeAll, List.foldl_cons, mergeIv]
+  obtain ⟨lo', hi', h', _⟩ := foldl_mergeIv_some rest a.1 a.2
+  exact ⟨lo', hi', h'⟩
+
+/-! ### constant and linear encodings -/
+
+theorem extremaLinear_bounds (p : Poly) (hp : p.length ≤ 2) (u : Rat) (h0 : 0 ≤ u) (h1 : u ≤ 1) :
+    (extremaLinear p).1 ≤ eval p u ∧ eval p u ≤ (extremaLinear p).2 := by
+  rcases p with _ | ⟨b, _ | ⟨a, _ | ⟨c, rest⟩⟩⟩
+  · simp [extremaLinear, eval]
+  · simp [extremaLinear, eval]
+  · have he : eval [b, a] u = a * u + b := by simp [eval]
+    rw [he]
+    simp only [extremaLinear]
+    split
+    · rename_i ha; constructor <;> nlinarith
+    · rename_i ha
+      have : a ≤ 0 := not_lt.mp ha
+      constructor <;> nlinarith
+  · simp at hp
+
+theorem extremaLinear_attained (p : Poly) (hp : p.length ≤ 2) :
+    (∃ u, 0 ≤ u ∧ u ≤ 1 ∧ eval p u = (extremaLinear p).1) ∧ (∃ u, 0 ≤ u ∧ u ≤ 1 ∧ eval p u = (extremaLinear p).2) := by
+  rcases p with _ | ⟨b, _ | ⟨a, _ | ⟨c, rest⟩⟩⟩
+  · exact ⟨⟨0, le_refl _, by norm_num, by simp [extremaLinear, eval]⟩, ⟨0, le_refl _, by norm_num, by simp [extremaLinear, eval]⟩⟩
+  · exact ⟨⟨0, le_refl _, by norm_num, by simp [extremaLinear, eval]⟩, ⟨0, le_refl _, by norm_num, by simp [extremaLinear, eval]⟩⟩
+  · simp only [extremaLinear]
+    split
+    · exact ⟨⟨0, le_refl _, by norm_num, by simp [eval]⟩, ⟨1, by norm_num, le_refl _, by simp [eval]; ring⟩⟩
+    · exact ⟨⟨1, by norm_num, le_refl _, by simp [eval]; ring⟩, ⟨0, le_refl _, by norm_num, by simp [eval]⟩⟩
+  · simp at hp
+
+/-! ### curved encodings, over the reals: the candidate set bounds the polynomial -/
+
+open Polynomial in
+/-- if `M` bounds the polynomial at 0, at 1 and at every zero of its derivative inside (0,1), it bounds it on [0,1] -/
+theorem bounded_above_by_candidates (p : ℝ[X]) (M : ℝ) (h0 : p.eval 0 ≤ M) (h1 : p.eval 1 ≤ M)
+    (hc : ∀ x, 0 < x → x < 1 → (derivative p).eval x = 0 → p.eval x ≤ M) :
+    ∀ x, 0 ≤ x → x ≤ 1 → p.eval x ≤ M := by
+  intro x hx0 hx1
+  have hcont : ContinuousOn (fun y => p.eval y) (Set.Icc (0 : ℝ) 1) := p.continuous.continuousOn
+  obtain ⟨m, hm, hmax⟩ := isCompact_Icc.exists_isMaxOn (Set.nonempty_Icc.mpr zero_le_one) hcont
+  have hxm : p.eval x ≤ p.eval m := hmax ⟨hx0, hx1⟩
+  rcases eq_or_lt_of_le hm.1 with h | h
+  · rw [← h] at hxm; linarith
+  · rcases eq_or_lt_of_le hm.2 with h' | h'
+    · rw [h'] at hxm; linarith
+    · have hloc : IsLocalMax (fun y => p.eval y) m := hmax.isLocalMax (Icc_mem_nhds h h')
+      have hd := hloc.deriv_eq_zero
+      rw [Polynomial.deriv] at hd
+      have := hc m h h' hd
+      linarith
+
+open Polynomial in
+theorem bounded_below_by_candidates (p : ℝ[X]) (M : ℝ) (h0 : M ≤ p.eval 0) (h1 : M ≤ p.eval 1)
+    (hc : ∀ x, 0 < x → x < 1 → (derivative p).eval x = 0 → M ≤ p.eval x) :
+    ∀ x, 0 ≤ x → x ≤ 1 → M ≤ p.eval x := by
+  intro x hx0 hx1
+  have := bounded_above_by_candidates (-p) (-M) (by simpa using h0) (by simpa using h1)
+    (by intro y hy0 hy1 hd
+        have : (derivative p).eval y = 0 := by simpa using hd
+        simpa using hc y hy0 hy1 this) x hx0 hx1
+  simpa using this
+
+/-- non-vacuity: three segment intervals merge to their hull -/
+example : mergeAll [(0, 10), (-5, 3), (2, 40)] = some (-5, 40) := by decide +kernel
+
 end Sb.C15
